@@ -1177,6 +1177,9 @@ pub fn run_c05(o: &Opts) -> Report {
     let mut cx = Ctx { rep: &mut rep, cases: vec![] };
     cx.table_cases();
     c05_parser_stream(o, &mut cx, &mut rng);
+    // "in bounded time": failing deeply nested inputs under a time budget (see `c05_deep_failing_stream`)
+    let mut drng = Rng::new(o.seed ^ 0xC05_DEE9);
+    c05_deep_failing_stream(o, &mut cx, &mut drng);
     let cases = std::mem::take(&mut cx.cases);
     finish(o, "C05", rep, cases)
 }
@@ -1719,5 +1722,193 @@ pub fn c08_lexical_state(o: &Opts, rep: &mut Report) {
             got: format!("{:?}", f.got),
             known: None,
         });
+    }
+}
+
+// -------------------------------------------------------------------------------------------
+// C05, "in bounded time": FAILING deeply nested inputs under a time budget.
+// For every format, depth in {8,16,24,32,40,64} and shape (left- / right-nested statements, compounds, sets, and the
+// three alternating) the token sequence of a valid nested term is truncated at every token position near the innermost
+// level, and written in full with one wrong token near the innermost level (a closing bracket of another kind, a copula,
+// a punctuation, a doubled token, a missing token).  Only texts of at most 512 characters are used (the property's bound).
+// parse and parse_term run on a helper thread; the harness waits `DEEP_BUDGET` per input.  A helper that does not answer is
+// abandoned (it cannot be stopped; the process ends when main returns) and a new helper takes the remaining inputs; the
+// stream stops after `DEEP_MAX_TIMEOUTS` timeouts so that abandoned helpers cannot pile up.
+// -------------------------------------------------------------------------------------------
+const DEEP_BUDGET: std::time::Duration = std::time::Duration::from_secs(5);
+const DEEP_MAX_TIMEOUTS: usize = 2;
+
+/// tokens of a nested term; `shape`: 0 statement, 1 compound, 2 set, 3 alternating; `left`: the nested operand comes first
+fn deep_tokens(l: &LexFormat, v: &Vocab, depth: usize, shape: usize, left: bool, copula: &str, connecter: &str, out: &mut Vec<String>, inner: &mut usize) {
+    if depth == 0 {
+        *inner = out.len();
+        out.push("A".into());
+        return;
+    }
+    let kind = if shape == 3 { depth % 3 } else { shape };
+    let (open, close, head, sep): (String, String, Option<String>, String) = match kind {
+        0 => (l.statement.brackets.0.clone(), l.statement.brackets.1.clone(), None, copula.to_string()),
+        1 => (l.compound.brackets.0.clone(), l.compound.brackets.1.clone(), Some(connecter.to_string()), l.compound.separator.clone()),
+        _ => (v.set_brackets[depth % v.set_brackets.len()].0.clone(), v.set_brackets[depth % v.set_brackets.len()].1.clone(), None, l.compound.separator.clone()),
+    };
+    out.push(open);
+    if let Some(h) = head {
+        out.push(h);
+        out.push(sep.clone());
+    }
+    if left {
+        deep_tokens(l, v, depth - 1, shape, left, copula, connecter, out, inner);
+        out.push(sep);
+        out.push("B".into());
+    } else {
+        out.push("B".into());
+        out.push(sep);
+        deep_tokens(l, v, depth - 1, shape, left, copula, connecter, out, inner);
+    }
+    out.push(close);
+}
+
+fn deep_failing_inputs(fm: &Fm, v: &Vocab, rng: &mut Rng, thorough: bool) -> Vec<(String, String)> {
+    let l = fm.l;
+    let mut res: Vec<(String, String)> = vec![];
+    let shortest = |xs: &Vec<String>| xs.iter().filter(|s| !s.is_empty()).min_by_key(|s| s.chars().count()).cloned().unwrap_or_default();
+    for depth in [8usize, 16, 24, 32, 40, 64] {
+        for shape in 0..4 {
+            for left in [true, false] {
+                // the shortest keywords (the 512-character bound), and randomly chosen ones
+                for pick in 0..(if thorough { 2 } else { 1 }) {
+                    let copula = if pick == 0 { shortest(&v.copulas) } else { rng.pick(&v.copulas).clone() };
+                    let connecter = if pick == 0 { shortest(&v.connecters) } else { rng.pick(&v.connecters).clone() };
+                    let mut toks: Vec<String> = vec![];
+                    let mut inner = 0usize;
+                    deep_tokens(l, v, depth, shape, left, &copula, &connecter, &mut toks, &mut inner);
+                    let what = format!("depth {} {} {}", depth, ["statements", "compounds", "sets", "statement/compound/set alternating"][shape], if left { "nested on the left" } else { "nested on the right" });
+                    let mut add = |ts: &[String], how: String| {
+                        let s: String = ts.concat();
+                        if s.chars().count() <= 512 {
+                            res.push((s, format!("{}, {}", what, how)));
+                        }
+                    };
+                    // truncated after k tokens, k around the innermost atom (and, in the thorough tier, everywhere)
+                    let lo = inner.saturating_sub(4);
+                    let hi = (inner + 8).min(toks.len());
+                    for k in 0..=toks.len() {
+                        if (k >= lo && k <= hi) || (thorough && k % 5 == 0) || k + 1 == toks.len() {
+                            add(&toks[..k], format!("truncated after {} of {} tokens", k, toks.len()));
+                        }
+                    }
+                    // one wrong token near the innermost level, the rest of the text complete
+                    let wrong: Vec<String> = vec![
+                        l.statement.brackets.1.clone(),
+                        l.compound.brackets.1.clone(),
+                        v.set_brackets[0].1.clone(),
+                        rng.pick(&v.copulas).clone(),
+                        rng.pick(&v.punctuations).clone(),
+                        l.compound.separator.clone(),
+                        String::new(),
+                    ];
+                    for k in inner.saturating_sub(2)..(inner + 5).min(toks.len()) {
+                        for (wi, w) in wrong.iter().enumerate() {
+                            if (wi + k + pick) % 2 == 0 || *w == toks[k] {
+                                continue;
+                            }
+                            let mut ts = toks.clone();
+                            ts[k] = w.clone();
+                            add(&ts, format!("token {} ({:?}) replaced by {:?}", k, toks[k], w));
+                        }
+                        let mut ts = toks.clone();
+                        ts.insert(k, toks[k].clone());
+                        add(&ts, format!("token {} ({:?}) doubled", k, toks[k]));
+                    }
+                }
+            }
+        }
+    }
+    res
+}
+
+fn c05_deep_failing_stream(o: &Opts, cx: &mut Ctx, rng: &mut Rng) {
+    use std::sync::mpsc;
+    let mut timeouts = 0usize;
+    'formats: for fm in formats() {
+        let v = vocab(fm.l);
+        let inputs = deep_failing_inputs(&fm, &v, rng, o.thorough);
+        cx.rep.hist.0.insert(format!("{}:deep-failing:inputs", fm.name), inputs.len() as u64);
+        let mut next = 0usize;
+        while next < inputs.len() {
+            // a helper thread for inputs[next..]
+            let (tx, rx) = mpsc::channel::<(usize, PR<LNarsese>, PR<LTerm>, u128)>();
+            let batch: Vec<String> = inputs[next..].iter().map(|x| x.0.clone()).collect();
+            let l = fm.l;
+            let base = next;
+            let spawned = std::thread::Builder::new().stack_size(256 << 20).spawn(move || {
+                for (i, s) in batch.iter().enumerate() {
+                    let t0 = std::time::Instant::now();
+                    let r = real_lex_parse(l, s);
+                    let t = real_lex_parse_term(l, s);
+                    if tx.send((base + i, r, t, t0.elapsed().as_micros())).is_err() {
+                        return;
+                    }
+                }
+            });
+            if spawned.is_err() {
+                cx.rep.hist.add("deep-failing:could-not-spawn-helper");
+                break 'formats;
+            }
+            loop {
+                if next >= inputs.len() {
+                    break;
+                }
+                match rx.recv_timeout(DEEP_BUDGET) {
+                    Ok((i, r, t, micros)) => {
+                        let (s, how) = &inputs[i];
+                        cx.rep.evaluations += 2;
+                        cx.rep.note_distinct(&format!("deep{}|{}", fm.idx, s));
+                        cx.rep.hist.add(format!("{}:deep-failing:parse:{}", fm.name, pr_tag(&r)));
+                        cx.rep.hist.add(format!("{}:deep-failing:time:{}", fm.name, match micros { 0..=999 => "<1ms", 1000..=99_999 => "<100ms", 100_000..=999_999 => "<1s", _ => ">=1s" }));
+                        if r.is_err() || t.is_err() {
+                            cx.fail("deep-failing", "lexical parser panicked", format!("[{}] {:?} ({})", fm.name, s, how), "Ok or Err".into(), "PANIC".into(), None);
+                        }
+                        // the model on a part of them (a quarter of the shallower ones, one in forty of the others)
+                        if (s.chars().count() <= 100 && i % 4 == 0) || i % 40 == 0 {
+                            cx.push(format!("LParseC {} {} {}", fm.idx, cstr(s), clres(&r, clnarsese)), format!("lexical parse[{}] {:?} ({})", fm.name, s, how));
+                            cx.rep.evaluations -= 1;
+                            if i % 2 == 0 {
+                                cx.push(format!("LParseTermC {} {} {}", fm.idx, cstr(s), clres(&t, clterm)), format!("lexical parse_term[{}] {:?} ({})", fm.name, s, how));
+                                cx.rep.evaluations -= 1;
+                            }
+                        }
+                        next = i + 1;
+                    }
+                    Err(mpsc::RecvTimeoutError::Disconnected) => {
+                        // the helper died (a panic that `guard` did not catch): reported as such, new helper for the rest
+                        let (s, how) = &inputs[next];
+                        cx.fail("deep-failing", "the helper thread died while parsing", format!("[{}] {:?} ({})", fm.name, s, how), "Ok or Err".into(), "thread died".into(), None);
+                        next += 1;
+                        break;
+                    }
+                    Err(mpsc::RecvTimeoutError::Timeout) => {
+                        // the helper is still busy with inputs[next]: abandon it
+                        let (s, how) = &inputs[next];
+                        cx.rep.evaluations += 1;
+                        cx.fail(
+                            "deep-failing",
+                            "lexical parse / parse_term of a text within the property's bounds (at most 512 characters, nesting at most 64) did not return within 5 s",
+                            format!("[{}] {:?} ({}; {} characters)", fm.name, s, how, s.chars().count()),
+                            "Ok or Err in bounded time (the unchanged library: well under 100 ms)".into(),
+                            "no answer after 5 s".into(),
+                            None,
+                        );
+                        timeouts += 1;
+                        next += 1;
+                        if timeouts >= DEEP_MAX_TIMEOUTS {
+                            cx.rep.hist.add("deep-failing:stopped-after-timeouts");
+                            break 'formats;
+                        }
+                        break; // new helper for the rest
+                    }
+                }
+            }
+        }
     }
 }
